@@ -396,6 +396,10 @@ func zzPBStoreEqualsMessage(p zzPBStore, msg *sketchpb.Store) bool {
 func zzC09Stream(srcKind int) {
 	zzvBound("streaming writer", "source sketches as for the rebuild harness; the bytes written by EncodeProto (generated builders + protowire, executed from their real code) are parsed by a reference protobuf wire parser (accepting packed and unpacked repeated doubles) and compared field by field, bit for bit, with the message ToProto builds")
 	s, _, _ := zzC09Source(srcKind, srcKind, zzvChoose("mapping", 6))
+	zzC09StreamOf(s)
+}
+
+func zzC09StreamOf(s *DDSketch) {
 	zzvCover("built")
 	sink := &zzSink{}
 	s.EncodeProto(sink)
